@@ -1,11 +1,13 @@
+//go:build go1.23
+
 package tbtc
 
 import (
 	"crypto/ecdsa"
 	"crypto/elliptic"
-	"encoding/hex"
 	"fmt"
 	"math/big"
+	"reflect"
 	"runtime"
 	"sort"
 	"strings"
@@ -67,7 +69,6 @@ type c25Harness struct {
 	wd      *walletDispatcher
 	probe   *c25Probe
 	points  [c25Wallets][2]*big.Int // the wallets' public key coordinates
-	keys    [c25Wallets]string
 	current [c25Wallets]*c25Action // model: the action the wallet is busy with
 	all     []*c25Action
 	refused []*c25Action
@@ -79,14 +80,25 @@ func c25Inconclusive(t *rapid.T, why string) {
 	t.Fatalf("VERIF-INCONCLUSIVE: %s", why)
 }
 
-// every action carries its own copy of the wallet (fresh big.Ints, fresh
-// operator slice): the wallet's identity is its public key, not an object.
+// The wallet's identity is its public key, not an object: the wallet value an
+// action carries comes from a drawn origin - the very key object other actions
+// of that wallet use (one signer's wallet reused), a fresh copy of the
+// coordinates, or a key unmarshalled from the wallet's bytes (another signer,
+// a registry reload, a wallet rebuilt from chain data).
 func (h *c25Harness) newAction(wi int, typ WalletActionType, outcome error) *c25Action {
-	x, y := new(big.Int).Set(h.points[wi][0]), new(big.Int).Set(h.points[wi][1])
+	var pub *ecdsa.PublicKey
+	switch rapid.SampledFrom([]string{"shared", "copy", "copy", "bytes", "bytes"}).Draw(h.t, "keyOrigin") {
+	case "shared":
+		pub = &ecdsa.PublicKey{Curve: tecdsa.Curve, X: h.points[wi][0], Y: h.points[wi][1]}
+	case "copy":
+		pub = &ecdsa.PublicKey{Curve: tecdsa.Curve, X: new(big.Int).Set(h.points[wi][0]), Y: new(big.Int).Set(h.points[wi][1])}
+	default:
+		pub = unmarshalPublicKey(elliptic.Marshal(tecdsa.Curve, h.points[wi][0], h.points[wi][1]))
+	}
 	a := &c25Action{
 		id: len(h.all), wi: wi, typ: typ, outcome: outcome, probe: h.probe,
 		w: wallet{
-			publicKey:             &ecdsa.PublicKey{Curve: tecdsa.Curve, X: x, Y: y},
+			publicKey:             pub,
 			signingGroupOperators: []chain.Address{chain.Address(fmt.Sprintf("op-%d", len(h.all)))},
 		},
 		gate: make(chan struct{}), started: make(chan struct{}),
@@ -221,14 +233,21 @@ func (h *c25Harness) guardedDispatch(a walletAction, what string) error {
 	return err
 }
 
-func (h *c25Harness) snapshot() map[string]WalletActionType {
+// snapshot reads the dispatcher's table of running actions: how many wallets
+// it holds as busy and with which action types. The table is read through
+// reflection and its keys are ignored, so the check does not depend on how the
+// dispatcher identifies a wallet internally (which wallet is busy is judged by
+// behaviour: refusals, acceptances, executions).
+func (h *c25Harness) snapshot() (int, string) {
 	h.lockTable()
 	defer h.wd.actionsMutex.Unlock()
-	out := map[string]WalletActionType{}
-	for k, v := range h.wd.actions {
-		out[k] = v
+	table := reflect.ValueOf(h.wd.actions)
+	var types []string
+	for it := table.MapRange(); it.Next(); {
+		types = append(types, fmt.Sprint(it.Value().Interface()))
 	}
-	return out
+	sort.Strings(types)
+	return table.Len(), strings.Join(types, ",")
 }
 
 func (h *c25Harness) history() string { return strings.Join(h.log, " ") }
@@ -240,24 +259,19 @@ func (h *c25Harness) check(where string) {
 	if v := h.probe.overlap.Load(); v != nil {
 		h.t.Fatalf("%s: %s\nhistory: %s", where, v, h.history())
 	}
-	want := map[string]WalletActionType{}
-	for wi, a := range h.current {
+	var want []string
+	for _, a := range h.current {
 		if a != nil {
-			want[h.keys[wi]] = a.typ
+			want = append(want, fmt.Sprint(a.typ))
 		}
 	}
-	got := h.snapshot()
-	if len(got) != len(want) {
-		h.t.Fatalf("%s: dispatcher holds %d busy wallets, expected %d\nhistory: %s", where, len(got), len(want), h.history())
+	sort.Strings(want)
+	size, types := h.snapshot()
+	if size != len(want) {
+		h.t.Fatalf("%s: dispatcher holds %d busy wallets, expected %d\nhistory: %s", where, size, len(want), h.history())
 	}
-	for k, typ := range want {
-		g, ok := got[k]
-		if !ok {
-			h.t.Fatalf("%s: busy wallet %s.. missing in the dispatcher table\nhistory: %s", where, k[:10], h.history())
-		}
-		if g != typ {
-			h.t.Fatalf("%s: wallet %s.. registered with action %s, expected %s\nhistory: %s", where, k[:10], g, typ, h.history())
-		}
+	if types != strings.Join(want, ",") {
+		h.t.Fatalf("%s: dispatcher holds running actions [%s], expected [%s]\nhistory: %s", where, types, strings.Join(want, ","), h.history())
 	}
 }
 
@@ -311,8 +325,13 @@ func (h *c25Harness) complete(wi int) {
 	// "available again as soon as its action ends": the release happens right
 	// after execute() returns, in the dispatcher's goroutine. Only liveness
 	// within a generous bound is observable; a bound hit is inconclusive.
-	key := h.keys[wi]
-	released := func() bool { _, busy := h.snapshot()[key]; return !busy }
+	busyBefore := 0
+	for _, c := range h.current {
+		if c != nil {
+			busyBefore++
+		}
+	}
+	released := func() bool { size, _ := h.snapshot(); return size < busyBefore }
 	for i := 0; i < 500 && !released(); i++ {
 		runtime.Gosched() // usually a matter of microseconds: do not sleep for it
 	}
@@ -406,7 +425,6 @@ func TestVerif_C25_OneActionPerWallet(t *testing.T) {
 		for wi := 0; wi < c25Wallets; wi++ {
 			x, y := tecdsa.Curve.ScalarBaseMult(big.NewInt(base + int64(wi)).Bytes())
 			h.points[wi] = [2]*big.Int{x, y}
-			h.keys[wi] = hex.EncodeToString(elliptic.Marshal(tecdsa.Curve, x, y))
 		}
 		defer h.releaseAll()
 
